@@ -63,3 +63,56 @@ def check(P, res, rid, scope_rx, floor):
     if n < floor:
         res.violated(rid, "modify-sites", f"expected >= {floor} left_right modify call sites, found {n}")
     return n
+
+
+OVERWRITERS = {"clone_from", "clone_into", "replace", "swap", "take"}
+
+
+def env_overwrites(cb):
+    """events in closure body cb that replace the whole list (the closure's argument) by a value computed from captured state: a lost update —
+    whatever other writers did to the list since the captured value was computed is thrown away"""
+    bad = []
+    list_locals = {2}
+    for e in cb.events:  # reborrows / copies of the list reference
+        if e.kind == "assign" and e.data["r"]["k"] in ("ref", "use"):
+            src = e.data["r"].get("p") or mir.op_place(e.data["r"].get("o"))
+            if src and src[0] in list_locals and all(x == "*" for x in src[1]) and e.data["p"][1] == []:
+                list_locals.add(e.data["p"][0])
+
+    def from_env(op):
+        evs, args, _ = mir.operand_sources(cb, op)
+        return 1 in args
+
+    for e in cb.events:
+        if e.kind == "call" and e.method in OVERWRITERS and e.args:
+            p0 = mir.op_place(e.args[0])
+            if p0 and p0[0] in list_locals and any(from_env(a) for a in e.args[1:]):
+                bad.append(e)
+        elif e.kind == "assign" and e.data["p"][0] in list_locals and e.data["p"][1] == ["*"]:
+            r = e.data["r"]
+            ops = [r[k] for k in ("o", "a", "b") if isinstance(r.get(k), dict)] + list(r.get("ops", []) or [])
+            if any(from_env(o) for o in ops):
+                bad.append(e)
+    return bad
+
+
+def check_relative(P, res, rid, scope_rx, floor):
+    res.rule(rid, "left-right updates are relative to the list's current content: the closure given to `modify` never replaces the whole list by a value computed from "
+                  "captured state (clone_from / assignment / mem::replace from a snapshot taken earlier) — that installs a stale snapshot and silently reverts every "
+                  "subscribe, unsubscribe or clone that other threads completed since the snapshot was taken")
+    n = 0
+    for b, e, cb in modify_closures(P, scope_rx):
+        n += 1
+        key = f"{b.id}:modify#{sum(1 for x in b.calls() if x.method == 'modify' and x.pos < e.pos)}"
+        if cb is None:
+            res.unclassified(rid, key, "closure passed to modify is not a literal closure of this crate", where=e.loc)
+            continue
+        bad = env_overwrites(cb)
+        if bad:
+            res.violated(rid, key, f"the closure given to modify at {e.loc} overwrites the list with captured data ({bad[0].loc}): updates made by other writers since that "
+                         "data was computed are lost", where=e.loc)
+        else:
+            res.holds(rid, key, "the list is only updated in place (push / retain / remove)", where=e.loc)
+    if n < floor:
+        res.violated(rid, "modify-sites", f"expected >= {floor} left_right modify call sites, found {n}")
+    return n
